@@ -43,6 +43,8 @@ class CallMixin(ExprMixin):
             return self.eval(n.args[1])
         if text == 'old' and self.spec_mode:
             return self.eval_old(n.args[0])
+        if text in ('forall', 'exists') and self.spec_mode:
+            return self.quantifier(text, n)
         if self.spec_mode and text in self.spec.specfuns:
             return self.spec.specfuns[text](self, *[self.eval(a) for a in n.args])
         fn = self.eval(n.func)
@@ -72,11 +74,41 @@ class CallMixin(ExprMixin):
                 return V(PY, py=('coro', 'local:' + d[2].name, {}))
         raise Unsupported('call of %r' % (d,))
 
+    def quantifier(self, which: str, n: ast.Call) -> V:
+        lam = n.args[0]
+        if not isinstance(lam, ast.Lambda):
+            raise Unsupported('%s needs a lambda' % which)
+        tys = [parse_ty(ast.literal_eval(a)) if isinstance(a, ast.Constant) else INT for a in n.args[1:]]
+        saved = getattr(self, 'spec_locals', None)
+        new = dict(saved or {})
+        bound = []
+        for i, p in enumerate(lam.args.args):
+            ty = tys[i] if i < len(tys) else INT
+            c = z3.Const(fresh_name('q_' + p.arg), ty.sort())
+            bound.append(c)
+            new[p.arg] = V(ty, c)
+        self.spec_locals = new
+        try:
+            body = self.truth(self.eval(lam.body))
+        finally:
+            self.spec_locals = saved
+        return mk_bool(z3.ForAll(bound, body) if which == 'forall' else z3.Exists(bound, body))
+
+    def ghost(self, name: str) -> V:
+        return self.lookup(name)
+
+    def ghost_set(self, name: str, val: V):
+        self.lookup(name)
+        ty = self.spec.ghosts[name]
+        val = coerce(val, ty)
+        self.st.ghost[name] = V(val.ty, val.term, ('ghost', name), val.py)
+
     def eval_old(self, node) -> V:
         snap = self.entry
         self.old_stack.append({'heap': snap['heap'], 'ghost': snap['ghost'], 'env': snap['env']})
         try:
-            return self.eval(node)
+            r = self.eval(node)
+            return V(r.ty, r.term, None, r.py)   # a snapshot: never re-read through its location
         finally:
             self.old_stack.pop()
 
@@ -399,6 +431,7 @@ class CallMixin(ExprMixin):
         v = fresh(ty, 'ghost_' + name)
         v.loc = ('ghost', name)
         self.lookup(name)  # make sure the initial value exists in snapshots
+        self.assume_type(v)
         self.st.ghost[name] = v
 
     def apply_contract(self, C: FnContract, vals: dict[str, V]) -> V:
@@ -501,6 +534,7 @@ class CallMixin(ExprMixin):
         if cancel and self.C.cancellable:
             if self.choice([None, None], 'cancel?') == 1:
                 self.st.trace.append('cancelled@await#%d' % k)
+                self.st.flags['cancelled'] = True
                 exc = self.fresh_exc('CancelledError', base='cancel', exact=True)
                 raise RaiseSig(exc, 'cancel@await#%d:%s' % (k, label))
 
